@@ -574,6 +574,9 @@ int __wrap_pthread_sigmask(int how, const sigset_t *set, sigset_t *old)
 
 /* ------------------------------------------------------------------ virtual signals */
 static void (*sig_handler[MT_MAXSIG])(int);
+static sigset_t sig_samask[MT_MAXSIG];	/* the sa_mask each handler was installed with: blocked while it runs (plus the signal itself) */
+static int sig_nodefer[MT_MAXSIG];
+static sigset_t handler_blocked[MT_MAXT];
 
 int mt_sigaction(int signum, const struct sigaction *sa, struct sigaction *old)
 {
@@ -585,6 +588,8 @@ int mt_sigaction(int signum, const struct sigaction *sa, struct sigaction *old)
 	}
 	if (sa != NULL) {
 		sig_handler[signum] = (sa->sa_handler == SIG_DFL || sa->sa_handler == SIG_IGN) ? NULL : sa->sa_handler;
+		sig_samask[signum] = sa->sa_mask;
+		sig_nodefer[signum] = !!(sa->sa_flags & SA_NODEFER);
 		mt_log("SIGACTION %d %s\n", signum, sa->sa_handler == SIG_DFL ? "DFL" : sa->sa_handler == SIG_IGN ? "IGN" : "HANDLER");
 	}
 	return 0;
@@ -627,18 +632,35 @@ void mt_send_signal(int signum, int t)
 static void deliver_pending_signals(void)
 {
 	int s;
-	if (VT[me_].sigmask_all || VT[me_].in_sighandler)
+	if (VT[me_].sigmask_all)
 		return;
-	for (s = 0; s < MT_MAXSIG; s++)
+	for (s = 1; s < MT_MAXSIG; s++)
 		if (VT[me_].pending_sig[s]) {
+			/* while a handler runs, the signals of ITS sa_mask (and the signal itself) are blocked, no others: a handler installed
+			 * with a partial mask can be interrupted by another signal's handler */
+			if (VT[me_].in_sighandler && sigismember(&handler_blocked[me_], s))
+				continue;
 			VT[me_].pending_sig[s] = 0;
 			if (sig_handler[s] != NULL) {
-				mt_log("SIGNAL-DELIVER %d\n", s);
-				VT[me_].in_sighandler = 1;
-				VT[me_].sigmask_all = 1;	/* sa_mask is full */
+				sigset_t saved = handler_blocked[me_];
+				int depth = VT[me_].in_sighandler, k, full = 1;
+				mt_log("SIGNAL-DELIVER %d%s\n", s, depth ? " nested" : "");
+				if (!depth)
+					sigemptyset(&handler_blocked[me_]);
+				for (k = 1; k < MT_MAXSIG; k++)
+					if (sigismember(&sig_samask[s], k))
+						sigaddset(&handler_blocked[me_], k);
+					else if (k != s && k != SIGKILL && k != SIGSTOP)
+						full = 0;
+				if (!sig_nodefer[s])
+					sigaddset(&handler_blocked[me_], s);
+				VT[me_].in_sighandler = depth + 1;
+				if (full)
+					VT[me_].sigmask_all = 1;	/* what signals sent meanwhile look at */
 				sig_handler[s](s);
 				VT[me_].sigmask_all = 0;
-				VT[me_].in_sighandler = 0;
+				VT[me_].in_sighandler = depth;
+				handler_blocked[me_] = saved;
 				mt_log("SIGNAL-RETURN %d\n", s);
 			} else {
 				mt_log("SIGNAL-DEFAULT %d\n", s);
@@ -794,6 +816,7 @@ static int core_action(char *op, int guard, char *a1, char *a2)
 		if (E[i].exists != 1 || !E[i].isreg) return 1;
 		mt_log("POST e%d owner=T%d\n", i, E[i].owner);
 		E[i].posting++;
+		errno = EINTR;	/* errno holds whatever an earlier call left there */
 		iv_event_post(E[i].o);
 		E[i].posting--;
 		mt_log("POSTED e%d\n", i);
@@ -818,8 +841,10 @@ static int core_action(char *op, int guard, char *a1, char *a2)
 		if (R[i].exists != 1 || !R[i].isreg) return 1;
 		mt_log("RAWPOST r%d owner=T%d n=%d\n", i, R[i].owner, n);
 		R[i].posting++;
-		while (n-- > 0)
+		while (n-- > 0) {
+			errno = EINTR;	/* errno holds whatever an earlier call left there */
 			iv_event_raw_post(R[i].o);
+		}
 		R[i].posting--;
 		mt_log("RAWPOSTED r%d\n", i);
 	} else if (!strcmp(op, "quit")) {
